@@ -1,16 +1,16 @@
-\* thorough: peers, the ticket-bearing command, wait + exec; exhaustive
+\* a design in which the negotiation creates its waiter before sending and does not release it when the send fails or is cancelled (seeded change C12-c2): expected to violate NoResidue
 SPECIFICATION Spec
 CONSTANTS
-  Callers = {1, 2}
-  Specs <- SpecsP
-  Msgs <- MsgsP
-  Apis = {"wait", "exec"}
+  Callers = {1}
+  Specs <- SpecsN
+  Msgs <- MsgsN
+  Apis = {"place"}
   Timeouts = {"short"}
   MaxElapse = 0
-  MaxFeeds = 2
-  MaxBatch = 2
+  MaxFeeds = 1
+  MaxBatch = 1
   MaxCancel = 1
-  MaxDue = 1
+  MaxDue = 0
   MaxSlow = 0
   MaxSendFail = 1
   SendHops = 4
@@ -21,7 +21,7 @@ CONSTANTS
   LiveListAtCompletion = TRUE
   ReleaseWhenSendCancelled = TRUE
   TimeoutForwarded = TRUE
-  RegisterAfterSend = TRUE
+  RegisterAfterSend = FALSE
 INVARIANT TypeOK
 INVARIANT OnlyMatching
 INVARIANT FirstMatching
